@@ -104,10 +104,22 @@ def closure_of(info, task_fi):
     return None
 
 
-def outside_terms(info, clo):
+def outside_terms(info, clo, cb=None):
     """Fresh-producing sub-terms of everything the closure captures: storage allocated before
-    the task started, hence shared by all tasks."""
+    the task started, hence shared by all tasks.  For a task that is a METHOD dispatched through functools.partial the
+    captured state is what the partial pre-binds (every argument but the last, which the pool supplies)."""
     out = {}
+    if clo is None:
+        if cb is None:
+            return out
+        fi = cb["resolved"][0]
+        names = [p for p in fi.params() if p not in ("self", "cls")]
+        for name, v in zip(names, list(cb.d.get("pre") or ())):
+            if isinstance(v, T):
+                for x in tm.walk(v):
+                    if x.op in ("alloc", "comp") or (x.op == "call"):
+                        out.setdefault(x, name)
+        return out
     for name, v in clo.env.items():
         if not isinstance(v, T):
             continue
